@@ -13,13 +13,13 @@ from harness.core import q, z, zlit, coq_list, coq_bool, coq_opt
 
 PID = "C02"
 GEN_GROUPS = ["Battery", "Ledger", "Evse", "EvseZ"]
-TARGETS = ["coq/Props/C02.vo", "coq/Model/LedgerQ.vo"]
+TARGETS = ["coq/Props/C02.vo", "coq/Model/LedgerQc.vo"]
 CASES = {"quick": 256, "thorough": 2000}
 SHARD = 16
 CORR_HEADER = ("From Coq Require Import ZArith QArith List String.\n"
-               "From ACN Require Import Base.Num Model.EVSE Model.Ledger Model.LedgerQ.\nImport ListNotations.\n"
+               "From ACN Require Import Base.Num Model.EVSE Model.Ledger Model.LedgerQ Model.LedgerQc.\nImport ListNotations.\n"
                "Open Scope Q_scope.\n")
-CHECK_FN = "check_c02"
+CHECK_FN = "check_c02_qc"      # the canonical-rational instance: the model of the axiom-free theorems
 RULE = ("one case = one complete Simulator.run(): 1-6 stations (EVSE / DeadbandEVSE / FiniteRatesEVSE, voltages "
         "120/208/240/277), period 1/5/15, sessions per station with back-to-back reuse and gaps, Battery / "
         "Linear2StageBattery continuous / stepwise (noise 0 and, with a patched np.random.normal, noise > 0) at initial "
